@@ -353,10 +353,11 @@ func GenTypes(t *rapid.T, o *Opts) *Spec {
 					o.class("spelling:short_package_name")
 				}
 			}
-			dup := false
+			dup, sameName := false, 0
 			for _, p := range g.spec.Pkgs {
 				if p.Name == sn {
 					dup = true
+					sameName++
 				}
 			}
 			parent := root.Path
@@ -364,7 +365,7 @@ func GenTypes(t *rapid.T, o *Opts) *Spec {
 				parent = module
 			}
 			if dup {
-				if !o.SameNamePkgs || g.spec.PkgByPath(module+"/alt/"+sn) != nil || sn == rootName {
+				if !o.SameNamePkgs || sameName > 1 || sn == rootName {
 					continue
 				}
 				// two imported packages sharing their name (v1/models and v2/models)
